@@ -136,9 +136,9 @@ def build_driver():
 
 
 def build_harness(timeout=3000):
-    lock = os.path.join(HARNESS, "Cargo.lock")
-    if not os.path.exists(lock):
-        shutil.copy(os.path.join(REPO, "Cargo.lock"), lock)
+    # cargo prunes the lock file to what the harness uses; always start from the repository's
+    # lock so that newly needed crates resolve offline to the pinned versions
+    shutil.copy(os.path.join(REPO, "Cargo.lock"), os.path.join(HARNESS, "Cargo.lock"))
     rc, out = sh(["cargo", "build", "--offline"], cwd=HARNESS, timeout=timeout)
     return rc == 0, out
 
